@@ -400,6 +400,9 @@ def oracle_real(ck, rng):
         tmpls = [smooth_template(rng, (16, 16, 16)) for _ in range(T)]
         # equal-energy templates: the un-normalised PCC score of a copy of template j is then largest for template j (Cauchy-Schwarz)
         tmpls = [(t_ * (100.0 / float(np.linalg.norm(t_)))).astype(np.float32) for t_ in tmpls]
+        if it % 3 != 2 and it % 2:
+            # ZNCC / NCC: templates on a common grey level with different contrasts (the normalised scores do not care)
+            tmpls = [(4.0 + t_ * float(c_)).astype(np.float32) for t_, c_ in zip(tmpls, (1.0, 0.35, 2.5))]
         j = int(rng.integers(0, T))
         m = float(rng.choice([2.5, 2.4, 1.6]))
         d = np.round(rng.uniform(-1, 1, size=3) * 20) / 20
@@ -422,6 +425,39 @@ def oracle_real(ck, rng):
                               f"shift {np.round(res.shift, 3).tolist()}, quaternion {np.round(res.quat, 3).tolist()}, score {float(res.score):.4f}; landscape maxima per candidate {cand}",
                          inp={"T": T, "j": j, "max_shifts": m, "d": d.tolist(), "model": M.__name__, "rotations": rots, "seed": ck.seed, "it": it},
                          key={"site": "model.align-displaced", "model": M.__name__}, oracle="displaced_template_identified")
+
+    # non-cubic boxes, several searched rotations, rotated and displaced copies made with scipy only (about the box centre (n - 1) / 2):
+    # the candidate, the rotation and the displacement are reported
+    for it in range(3 if ck.tier == "quick" else 20):
+        shape = [(12, 14, 16), (16, 12, 14), (13, 16, 11)][it % 3]
+        M = [ZNCCAlignment, NCCAlignment, PCCAlignment][it % 3]
+        zz, yy, xx = np.indices(shape).astype(np.float64)
+        cen = (np.array(shape) - 1) / 2
+        t = np.zeros(shape)
+        for b_ in range(6):
+            p_ = cen + rng.uniform(-3, 3, size=3)
+            t += float(rng.uniform(0.6, 1.5)) * np.exp(-((zz - p_[0]) ** 2 + (yy - p_[1]) ** 2 + (xx - p_[2]) ** 2) / (2 * 1.2 ** 2))
+        t = t.astype(np.float32)
+        axis_ = it % 3
+        rr = [(0, 0), (0, 0), (0, 0)]; rr[axis_] = (90, 90)
+        model = M(t, rotations=tuple(rr))
+        quats = np.asarray(model.quaternions)
+        k = [0, 2, 1][it % 3] if len(quats) == 3 else 0
+        d = np.array([float(rng.integers(-1, 2)), float(rng.integers(-1, 2)), float(rng.integers(-1, 2))])
+        Rk = Rotation.from_quat(quats[k]).as_matrix()
+        # img(x) = template(Rk^-1 (x - c - d) + c): the template rotated by candidate k about the centre, then displaced by d
+        coords = np.stack([zz, yy, xx], axis=0).reshape(3, -1) - (cen + d)[:, None]
+        src = Rk.T @ coords + cen[:, None]
+        img = ndi.map_coordinates(t, src, order=1, mode="constant", cval=0.0).reshape(shape).astype(np.float32)
+        res = model.align(img, (2.0, 2.0, 2.0))
+        okq = np.allclose(Rotation.from_quat(res.quat).as_matrix(), Rk, atol=1e-4)
+        err = float(np.abs(np.asarray(res.shift, float) - d).max())
+        ck.oracle_count("noncubic_rotated_copy", 1, 1)
+        if not okq or err > 0.3:
+            ck.violation(what=f"{M.__name__}.align, box {shape}, rotations {tuple(rr)}: copy rotated by candidate {k} and displaced by {d.tolist()} reported with "
+                              f"quaternion {np.round(res.quat, 3).tolist()} (candidate {k}: {np.round(quats[k], 3).tolist()}), shift {np.round(res.shift, 2).tolist()}",
+                         inp={"shape": list(shape), "rotations": [list(x) for x in rr], "k": k, "d": d.tolist(), "model": M.__name__, "seed": ck.seed, "it": it},
+                         key={"site": "model.align-noncubic-rotation", "model": M.__name__}, oracle="noncubic_rotated_copy")
 
 
 def corr_rotation_set(ck, rng):
